@@ -106,6 +106,13 @@ class C01(Property):
                 else:
                     d["jpeg"] = rng.choice([-1, -1, 30, 95])
                 kind = f"{style}-{d['method']}" + (f"-{d['term']}" if style == "iterm2" else "") + ("-native" if d.get("animated") else "") + ("-exact" if d.get("exact") else "") + ("-viasupported" if d.get("via_supported") else "")
+            if style != "block" and rng.random() < 0.3:
+                # the method configured on the instance differs from (or equals) the per-render override
+                d["configured"] = rng.choice(["lines", "whole"])
+            if style == "kitty" and rng.random() < 0.12 and not d.get("exact"):
+                # a source with fewer pixel rows than rendered lines (thin strip), LINES over a configured WHOLE
+                d.update(w=rng.randrange(24, 80), h=rng.randrange(2, 8), cols=rng.randrange(20, 41), lines=rng.randrange(9, 21),
+                         method="lines", configured="whole", cell=rng.choice([(2, 3), (5, 10)]), manual=True)
             # an application-defined subclass of the style class (settings and terminal identity are looked up
             # through the instance's own class)
             d["subclass"] = rng.random() < 0.3
@@ -265,9 +272,14 @@ class C01(Property):
                 ITerm2Image.forced_support = False
                 ITerm2Image._supported = True
         im = self._instance(cls, img, d)
+        if d.get("configured"):
+            im.set_render_method(d["configured"])
         if restore:
             restore()
-        im.set_size(width=d["cols"]) if d["cols"] <= d["lines"] else im.set_size(height=d["lines"])
+        if d.get("manual"):
+            im.set_size(width=d["cols"], height=d["lines"])
+        else:
+            im.set_size(width=d["cols"]) if d["cols"] <= d["lines"] else im.set_size(height=d["lines"])
         rw, rh = im.rendered_size
         d["_size"] = [rw, rh]
         if style == "kitty":
@@ -436,12 +448,24 @@ def payload_check(out: str):
         else:
             continue
         if keys.get("m") == "0" and cur is not None:
-            if cur[0].get("o") == "z":
+            k0 = cur[0]
+            try:
+                data = base64.standard_b64decode(cur[1])
+            except Exception as e:
+                return f"a kitty payload is not valid base64 ({e}): the terminal rejects the image"
+            if k0.get("o") == "z":
                 try:
-                    zlib.decompress(base64.standard_b64decode(cur[1]))
+                    data = zlib.decompress(data)
                 except Exception as e:
                     return (f"a kitty command says o=z but its payload does not inflate ({e}): "
                             "the terminal rejects the image and the rectangle is not covered")
+            if k0.get("t", "d") == "d" and k0.get("f", "32") in ("24", "32") and "s" in k0 and "v" in k0:
+                # the protocol's rule for direct pixel data: exactly s x v pixels of f/8 bytes, s and v positive;
+                # anything else is answered with ENODATA / EINVAL and nothing is displayed
+                s_, v_, bpp = int(k0["s"]), int(k0["v"]), int(k0.get("f", "32")) // 8
+                if s_ < 1 or v_ < 1 or len(data) != s_ * v_ * bpp:
+                    return (f"a kitty command announces s={s_} v={v_} f={k0.get('f', '32')} but carries {len(data)} bytes of pixel "
+                            "data: the terminal rejects the image and the rectangle is not covered")
             cur = None
     return None
 
